@@ -366,6 +366,7 @@ def check_text_rewrites(ctx, tree, cls):
     ctx.setcount('text_rewrite_steps', nsteps)
     check_number_printer(ctx)
     check_negative_operand(ctx, tree, cls)
+    check_value_gateway(ctx, tree, cls)
 
 
 def check_number_printer(ctx):
@@ -391,6 +392,84 @@ def check_number_printer(ctx):
         ctx.ob('C07.number-printer', repr(v), ok,
                f'Constant({v!r}) prints `{text}`, which the library\'s lexer reads as {toks} - not one numeric literal denoting the value (e.g. exponent notation is '
                f'an integer, an identifier and a subtraction)', file=site[0], line=site[1], witness=f'Constant({v!r}).to_string()')
+
+
+def check_value_gateway(ctx, tree, cls):
+    """Every constant of the tree reaches SQLAlchemy as sa.literal(<its value>) - one typed bind/literal per value - whatever the value is and wherever the constant
+    stands.  to_expression is interpreted on constants and on comparisons / IN lists / BETWEEN over constants, with stand-ins for SQLAlchemy elements that record
+    what they are combined with: a raw Python value handed to an operator method (SQLAlchemy then types the whole list by its first element) or a special element
+    chosen by value (sa.null(): `= NULL` silently becomes IS NULL) is a violation."""
+    from ..interp import Interp, Obj, Raised, Env
+    te = next((m for m in cls.body if isinstance(m, ast.FunctionDef) and m.name == 'to_expression'), None)
+    ctx.need(te is not None, 'to_expression not found')
+
+    class Elem:
+        _interp_safe = True
+
+        def __init__(self, kind, value=None, args=()):
+            self.kind, self.value, self.args = kind, value, list(args)
+
+        def label(self, a):
+            return self
+
+        def _op(self, name, *others):
+            return Elem('op:' + name, None, [self] + list(others))
+
+        def leaves(self):
+            out = []
+            for a in self.args:
+                if isinstance(a, Elem):
+                    out.extend(a.leaves() if a.args else [a])
+                elif isinstance(a, (list, tuple)):
+                    for x in a:
+                        out.extend(x.leaves() if isinstance(x, Elem) and x.args else [x])
+                else:
+                    out.append(a)
+            return out if self.args else [self]
+    for nm in ('__eq__', '__ne__', '__gt__', '__lt__', '__ge__', '__le__', '__add__', '__sub__', '__mul__', '__truediv__', '__mod__', 'is_', 'is_not', 'isnot', 'like',
+               'notlike', 'not_like', 'in_', 'notin_', 'not_in', 'concat'):
+        setattr(Elem, nm, (lambda n_: (lambda self, *o: self._op(n_, *o)))(nm))
+    Elem.__hash__ = lambda self: id(self)
+
+    def const(v):
+        return Obj('Constant', value=v, alias=None, parentheses=False)
+    col = Obj('Identifier', parts=['a'], alias=None, parentheses=False)
+    values = [None, 1, 2.5, 'x', True, False, "it's", 0, '']
+    probes = [(f'Constant({v!r})', const(v), [v]) for v in values]
+    for op in ('=', '!=', '<>', '>', 'is', 'is not', 'like'):
+        for v in (None, 1, 'x%', 2.5):
+            probes.append((f'a {op} {v!r}', Obj('BinaryOperation', op=op, args=[col, const(v)], alias=None, parentheses=False), [v]))
+    for op in ('in', 'not in', 'IN'):
+        for vs in ([1, 2.5], [1], ['x', 1], [2.5, True, 1], [1, None]):
+            tup = Obj('Tuple', items=[const(v) for v in vs], alias=None, parentheses=False)
+            probes.append((f'a {op} {tuple(vs)!r}', Obj('BinaryOperation', op=op, args=[col, tup], alias=None, parentheses=False), list(vs)))
+    probes.append(('a between 1 and 2.5', Obj('BetweenOperation', op='between', args=[col, const(1), const(2.5)], alias=None, parentheses=False), [1, 2.5]))
+    n = 0
+    for label, node, vals in probes:
+        stubs = {'sa.literal': lambda it, x, *a, **k: Elem('literal', x), 'self.get_alias': lambda it, a: a, 'self.to_column': lambda it, parts: Elem('column', tuple(parts)),
+                 'sa.between': lambda it, a, b, c: Elem('op:between', None, [a, b, c]), 'sa.and_': lambda it, *a: Elem('op:and', None, a), 'sa.or_': lambda it, *a: Elem('op:or', None, a),
+                 'sa.null': lambda it: Elem('null'), 'sa.true': lambda it: Elem('true'), 'sa.false': lambda it: Elem('false'),
+                 'sa.literal_column': lambda it, x, *a: Elem('literal_column', x), 'sa.text': lambda it, x: Elem('text', x), 'sa.bindparam': lambda it, *a, **k: Elem('bindparam', a)}
+        it = Interp.for_file(ctx.src, RENDER, {'UnaryOperation': {'Operation'}, 'BinaryOperation': {'Operation'}, 'BetweenOperation': {'Operation'}, 'Constant': set(),
+                                               'Identifier': set(), 'Tuple': set()}, stubs)
+        it.stubs['getattr'] = lambda itp, o, name, *d: (getattr(o, name) if isinstance(o, Elem) else (o.attrs[name] if isinstance(o, Obj) and name in o.attrs else d[0]))
+        n += 1
+        try:
+            res = it.call_function(te, [Obj('SqlalchemyRender', dialect=Obj('Dialect', name='postgresql')), node], {}, Env())
+        except Raised as r:
+            # a refusal is the fallback's business (C17); only NotImplementedError is a refusal
+            ctx.ob('C07.value-gateway', label, r.exc_name == 'NotImplementedError', f'to_expression raises {r.exc_name} on `{label}`', file=RENDER, line=te.lineno)
+            continue
+        leaves = res.leaves() if isinstance(res, Elem) else [res]
+        lits = [x for x in leaves if isinstance(x, Elem) and x.kind == 'literal']
+        raw = [x for x in leaves if not isinstance(x, Elem)]
+        special = [x.kind for x in leaves if isinstance(x, Elem) and x.kind in ('null', 'true', 'false', 'literal_column', 'text', 'bindparam')]
+        same = len(lits) == len(vals) and all(type(a.value) is type(b) and a.value == b for a, b in zip(lits, vals))
+        ctx.ob('C07.value-gateway', label, not raw and not special and same,
+               f'`{label}`: the constants reach SQLAlchemy as literals {[x.value for x in lits]}, raw operands {raw}, special elements {special}; every constant must be '
+               f'sa.literal(<its value>), in order: raw values in a list are typed by the first one (`x IN (1, 2.5)` renders `IN (1, 2)`), a NULL element turns '
+               f'`= NULL` into IS NULL', file=RENDER, line=te.lineno, witness='select * from t where x in (1, 2.5)')
+    ctx.setcount('value_gateway_probes', n)
 
 
 def check_negative_operand(ctx, tree, cls):
